@@ -140,10 +140,25 @@ def carryover_branch(h, first_path=False):
     h.check(mm is not None, "c01.setup.actor-place")
     sf[(int(mm.group(1)) + 1) * 1000 + int(mm.group(2))] = actor
     eb = h.method("sessionx::egress_buffer::EgressBuffer", "new")
+    hwm_bound = h.params.get("hwm_bound", False)
+    owned = True
+    pend = 0
+    if hwm_bound:
+        # C14 (buffering bound): the buffered-write mode, whose gate and batch budget depend on the number of framed
+        # messages still waiting in the EgressBuffer (symbolic, below SNDHWM: otherwise the branch is not entered);
+        # inductive hypothesis on the carry-over: fewer than SNDBATCH_COUNT messages
+        owned = h.choose(2, "write_mode") == 0
+        if not owned:
+            pend = h.bvar("egress_pending_messages", W)
+            h.assume(z3.ULT(pend, hwm))
+            ebf = prog.struct_fields("sessionx::egress_buffer::EgressBuffer")
+            eb.f[ebf.index("message_count")] = pend
+        if not first_path:
+            h.assume(z3.UGT(cnt, n_carry) if n_carry > 1 else z3.BoolVal(True))
     put("core_carryover", Seq("vecdeque", [] if first_path else list(carry), "message::FrameBatch"))
     put("outgoing_batch", Seq("vec", [], "message::FrameBatch"))
     put("egress_buffer", eb)
-    put("use_owned_write", True)
+    put("use_owned_write", owned)
     put("sndhwm", hwm)
     put("pending_vectored", Seq("vecdeque", [], "?"))
     if "sndbatch_count" in dbg and dbg["sndbatch_count"][0] == "field":
@@ -199,6 +214,19 @@ def carryover_branch(h, first_path=False):
     h.check(after == order_before, "c01.batch.batch-assembly-reorders-messages",
             f"send order {order_before}; this cycle's batch {batch}, still in carry-over {left}, still in the pipe {rest}: a younger message is framed before an older one")
     h.check(len(batch) >= 1, "c01.batch.empty-batch-with-carry-over-pending")
+    if hwm_bound:
+        nb, nl = len(batch), len(left)
+        if not owned:
+            # framed messages after this batch is pushed: pending + batch <= SNDHWM (a budget of at least one message
+            # is always granted, and pending < SNDHWM here)
+            h.check(z3.ULE(pend + nb, hwm), "c14.buffer.batch-exceeds-the-room-left-below-sndhwm",
+                    f"batch of {nb} message(s) although SNDHWM minus the framed messages still pending leaves less room")
+            h.cover("c14.buffer.budget-limited-by-hwm", nb < n_carry + n_pipe)
+        h.check(z3.ULE(z3.BitVecVal(nb, W), cnt), "c14.buffer.batch-larger-than-sndbatch-count", f"batch of {nb}")
+        # inductive step for the carry-over: it never holds SNDBATCH_COUNT or more messages
+        h.check(z3.ULT(z3.BitVecVal(nl, W), cnt) if nl > 0 else True, "c14.buffer.carry-over-reaches-sndbatch-count",
+                f"{nl} message(s) left in the carry-over after a cycle that started with {0 if first_path else n_carry}")
+        h.cover("c14.buffer.carry-over-from-pipe-overflow", nl > 0 and len(rest) < n_pipe)
     h.cover("c01.batch.assembled")
     h.cover("c01.batch.topped-up-from-pipe", len(rest) < n_pipe)
     h.cover("c01.batch.left-carry-over", len(left) > 0)
